@@ -54,6 +54,27 @@ def single_line_oracle(term, smart):
     return L, bad
 
 
+def config_oracle(term, smart, w, frac):
+    """the same clause at an arbitrary ribbon: a single-line layout of L columns
+    must be kept at (w, frac) whenever L <= w and L <= the ribbon width the
+    property prescribes for (w, frac) (computed here, not taken from layout.py)"""
+    import engine
+    real = docgen.to_real(term)
+    big = EC.split_result(engine.impl_layout(real, smart, BIG, 1.0))
+    if big is None:
+        return None
+    stream = laysem.parse_stream(big[0])
+    if any(it[0] == 'L' for it in stream):
+        return None
+    L = sum(len(it[1]) for it in stream if it[0] == 'T')
+    if L > w or L > docgen.ribbon_width(w, frac):
+        return None
+    r = EC.split_result(engine.impl_layout(real, smart, w, frac))
+    if r is None or r[0] != big[0]:
+        return L
+    return None
+
+
 def main(tier):
     run = Run(PROP, tier)
     built = run.build()
@@ -94,6 +115,26 @@ def main(tier):
                     break
             if len(run.violations) >= 3:
                 break
+        # the disagreeing configurations themselves, then a sample of all configurations
+        r2 = __import__('common').rng(PROP + '/cfg-oracle')
+        pool = [(d['term'], d['smart'], d['width'], d['ribbon_frac']) for d in dis[:4000]]
+        recs = [(rec[1], rec[2], rec[3], rec[4]) for rec in results]
+        r2.shuffle(recs)
+        pool += recs[:3000 if tier == 'quick' else 30000]
+        cfg_checked = 0
+        for t, smart, w, frac in pool:
+            if len(run.violations) >= 3:
+                break
+            t = EC.detuple(t)
+            if not no_forced(t):
+                continue
+            cfg_checked += 1
+            L = config_oracle(t, smart, w, frac)
+            if L is not None:
+                small = docgen.shrink(t, lambda c: no_forced(c) and config_oracle(c, smart, w, frac) is not None)
+                run.violation({'kind': 'single-line-broken-at-config', 'term': small, 'original_term': t,
+                               'smart': smart, 'width': w, 'ribbon_frac': frac, 'L': L})
+        run.coverage['config_oracle_checked'] = cfg_checked
         run.coverage['single_line_checked'] = checked
         run.coverage['single_line_documents'] = single
         run.coverage['rule'] = (
@@ -117,6 +158,10 @@ def replay(path):
         print(json.dumps(p, indent=1)[:3000])
         return 1
     t = EC.detuple(p['term'])
+    if p.get('kind') == 'single-line-broken-at-config':
+        L = config_oracle(t, p['smart'], p['width'], p['ribbon_frac'])
+        print('term:', t, 'width', p['width'], 'ribbon_frac', p['ribbon_frac'], 'single line of', L, 'columns broken' if L else 'ok')
+        return 1 if L is not None else 0
     L, bad = single_line_oracle(t, p['smart'])
     print('term:', t, 'L =', L, 'failing widths:', bad)
     return 1 if bad else 0
